@@ -58,6 +58,12 @@ def eq(ctx, rule="C18.fields"):
         ok = fl in used
         ctx.ob(rule, f.site, ok, "" if ok else f"`{fl}` is computed but does not take part in the verdict", role=f"used:{what}",
                line=loop[0].lineno)
+    # every command pair goes through every comparison: the loop is left only by the verdict (no continue / break, and every
+    # path through the body reaches a verdict test)
+    skips = [x for x in ast.walk(loop[0]) if isinstance(x, (ast.Continue, ast.Break))]
+    ctx.ob(rule, f.site, not skips, "" if not skips else f"`{type(skips[0]).__name__.lower()}` at line {skips[0].lineno} lets a command "
+           "pair skip the comparisons (the modes live on the Command, not on the operation: a shared operation object on different "
+           "modes compares equal)", role="no-shortcut", line=(skips[0].lineno if skips else loop[0].lineno))
     # target and register compared
     for a in ("target", "register"):
         ok = any(isinstance(n, ast.Compare) and isinstance(n.ops[0], ast.NotEq) and a in ast.unparse(n) for n in walk_no_nested(f.node))
@@ -83,6 +89,33 @@ def eq(ctx, rule="C18.fields"):
     ctx.ob(rule, g.site, ok, "" if ok else "for every operation other than CXgate / BSgate the wire attribute is the constant "
            "0: Sgate(r) | q[0] and Sgate(r) | q[1] are reported equivalent (modes ignored)", role="match:modes-generic",
            line=(generic[0].lineno if generic else g.node.lineno))
+    # an order-sensitive two-mode gate loses its wire attribute only on a test that looks at ALL its parameters
+    cfgg = cfg_of(g.node)
+    for n in walk_no_nested(g.node):
+        if isinstance(n, ast.Assign) and isinstance(n.targets[0], ast.Subscript) and dotted(n.targets[0].value) in wm and \
+                any(isinstance(x, ast.Attribute) and x.attr == "reg" for x in ast.walk(n.value)):
+            ids = cfgg.find(n)
+            if not ids:
+                continue
+            pf = path_facts(cfgg, ids[0])
+            is_bs = any(v and any(isinstance(x, ast.Constant) and x.value == "BSgate" for x in ast.walk(a)) for a, v in pf)
+            if not is_bs:
+                continue
+            whole = False
+            for a, v in pf:
+                d = derives(g.node, a, ids[0])
+                for e in d.exprs:
+                    if isinstance(e, ast.Attribute) and e.attr == "p":
+                        par = getattr(e, "parent", None)
+                        if not (isinstance(par, ast.Subscript) and par.value is e and isinstance(par.slice, ast.Constant)):
+                            whole = True
+                idx = {e.slice.value for e in d.exprs if isinstance(e, ast.Subscript) and isinstance(e.slice, ast.Constant)
+                       and isinstance(e.value, ast.Attribute) and e.value.attr == "p"}
+                if {0, 1} <= idx:
+                    whole = True
+            ctx.ob(rule, g.site, whole, "" if whole else "the beamsplitter is treated as mode-symmetric on a test of one of its two "
+                   "parameters only: BSgate(pi/4, 0) | (q0, q1) and BSgate(pi/4, 0) | (q1, q0) are reported equivalent",
+                   role="match:bs-both-params", line=n.lineno)
     # every return of node_match is computed from the compared attributes of BOTH nodes (whatever temporaries are used)
     cfgm = cfg_of(nm.node)
     for k, (r, rv) in enumerate(return_values(nm.node)):
